@@ -25,7 +25,13 @@ pub enum Sig {
 #[derive(Clone, Debug, Serialize, Deserialize)]
 pub enum Item {
   Ready { socket_type: String, identity: Option<Vec<u8>>, junk_prop: bool },
-  PlainHello { user_good: bool, pass_kind: u8 },
+  PlainHello {
+    user_good: bool,
+    pass_kind: u8,
+    /// the user name is the empty string (what a client without configured credentials sends)
+    #[serde(default)]
+    user_empty: bool,
+  },
   CurveShapedHello(u16),
   Welcome { junk: u16 },
   Initiate(u16),
@@ -70,7 +76,7 @@ fn item_strategy() -> impl Strategy<Value = Item> + Clone {
   prop_oneof![
     3 => (st, prop::option::of(prop::collection::vec(1u8..=255, 1..8)), prop::bool::weighted(0.2))
       .prop_map(|(socket_type, identity, junk_prop)| Item::Ready { socket_type, identity, junk_prop }),
-    3 => (any::<bool>(), 0u8..4).prop_map(|(user_good, pass_kind)| Item::PlainHello { user_good, pass_kind }),
+    3 => (any::<bool>(), 0u8..4, prop::bool::weighted(0.3)).prop_map(|(user_good, pass_kind, user_empty)| Item::PlainHello { user_good, pass_kind, user_empty }),
     1 => any::<u16>().prop_map(Item::CurveShapedHello),
     2 => prop_oneof![3 => Just(0u16), 1 => 1u16..300].prop_map(|junk| Item::Welcome { junk }),
     1 => any::<u16>().prop_map(Item::Initiate),
@@ -122,6 +128,16 @@ fn case_strategy() -> impl Strategy<Value = Case> + Clone {
       if same_mech {
         stream.mech_name = mech.name().to_string();
         stream.as_server = (!local_server) as u8;
+        // a PLAIN listener with an unset credential: lead with the HELLO a client without that
+        // credential would send (empty string for the unset half); the generated items follow
+        if mech == Mech::Plain && local_server && plain_cfg != 0 && matches!(stream.sig, Sig::Valid) && !stream.dirty_padding {
+          stream.revision = 3;
+          let hello = Item::PlainHello { user_good: plain_cfg == 1, pass_kind: if plain_cfg == 2 { 0 } else { 1 }, user_empty: plain_cfg != 1 };
+          stream.items.insert(0, hello);
+          if !matches!(stream.items.get(1), Some(Item::Ready { .. })) {
+            stream.items.insert(1, Item::Ready { socket_type: "DEALER".into(), identity: None, junk_prop: false });
+          }
+        }
       }
       Case { mech, local_server, allow_zmtp2, local_type, stream, chunks, plain_cfg }
     })
@@ -139,8 +155,10 @@ fn item_frame(it: &Item) -> Vec<u8> {
       }
       RefFrame::cmd(wire::command_body("READY", &wire::metadata(&props)))
     }
-    Item::PlainHello { user_good, pass_kind } => {
-      let user: Vec<u8> = if *user_good { GOOD_USER.as_bytes().to_vec() } else { b"mallory".to_vec() };
+    Item::PlainHello { user_good, pass_kind, user_empty } => {
+      let user: Vec<u8> = if *user_empty {
+        vec![]
+      } else if *user_good { GOOD_USER.as_bytes().to_vec() } else { b"mallory".to_vec() };
       let pass: Vec<u8> = match pass_kind {
         0 => b"guess".to_vec(),
         1 => vec![],
@@ -273,6 +291,10 @@ fn prop_case(c: &Case, rec: &mut CaseRec) -> Result<(), Violation> {
   let legit = legitimately_completes(c);
   rec.label_if(legit, "legitimate_plain_server");
   rec.label_if(c.mech == Mech::Plain && c.local_server && c.plain_cfg != 0, "plain_listener_with_incomplete_credentials");
+  rec.label_if(
+    c.mech == Mech::Plain && c.local_server && c.plain_cfg != 0 && c.stream.items.iter().any(|i| matches!(i, Item::PlainHello { user_empty: true, .. } | Item::PlainHello { pass_kind: 1, .. })),
+    "incomplete_listener_offered_an_empty_credential",
+  );
   if legit {
     return Ok(());
   }
